@@ -393,14 +393,14 @@ Definition keepf (u : list channel) (dev : list Z) (c : Z) : bool := zmem c dev 
 Lemma plan_generic_unfold (s : st) dev :
   let en := get_enabled_uplink_channel_indices s in
   let diff := int_slice_diff dev en in
-  plan_generic B s dev =
+  plan_generic_core B s dev =
   match diff, filter (keepf (up s) dev) diff with
   | [], _ => Ok []
   | _, [] => Ok []
   | _, _ => plan_loop B (up s) dev en (-1) (sort_ints diff)
   end.
 Proof.
-  cbv zeta. unfold plan_generic.
+  cbv zeta. unfold plan_generic_core.
   rewrite filtered_diff_spec.
   - cbn [bind]. unfold keepf.
     destruct (int_slice_diff dev (get_enabled_uplink_channel_indices s)); reflexivity.
@@ -419,7 +419,7 @@ Definition plan_blocks (s : st) (dev : list Z) : list Z :=
   end.
 
 Lemma plan_generic_blocks (s : st) dev : (forall c, In c dev -> 0 <= c) ->
-  plan_generic B s dev = Ok (map (mk_payload B (want (up s) dev)) (plan_blocks s dev)).
+  plan_generic_core B s dev = Ok (map (mk_payload B (want (up s) dev)) (plan_blocks s dev)).
 Proof.
   intros Hd. rewrite plan_generic_unfold. unfold plan_blocks.
   set (diff := int_slice_diff dev (get_enabled_uplink_channel_indices s)).
@@ -462,7 +462,7 @@ Qed.
 
 Theorem generic_sound (s : st) dev :
   zlen (up s) <= 256 -> (forall c, In c dev -> 0 <= c < 256) ->
-  exists pls, plan_generic B s dev = Ok pls /\ apply_generic B s dev pls = Ok (target s dev).
+  exists pls, plan_generic_core B s dev = Ok pls /\ apply_generic B s dev pls = Ok (target s dev).
 Proof.
   intros Hn Hd. set (n := zlen (up s)). assert (Hn0 : 0 <= n) by (unfold n, zlen; lia).
   eexists. split; [apply plan_generic_blocks; intros c Hc; apply Hd in Hc; lia|].
@@ -500,7 +500,7 @@ Qed.
 
 Theorem generic_count (s : st) dev :
   (forall c, In c dev -> 0 <= c < zlen (up s)) ->
-  exists pls, plan_generic B s dev = Ok pls /\ Z.of_nat (length pls) <= blocks B (zlen (up s)).
+  exists pls, plan_generic_core B s dev = Ok pls /\ Z.of_nat (length pls) <= blocks B (zlen (up s)).
 Proof.
   intros Hd. eexists. split; [apply plan_generic_blocks; intros c Hc; apply Hd in Hc; lia|].
   rewrite map_length. unfold plan_blocks.
@@ -520,7 +520,7 @@ Proof.
 Qed.
 
 Theorem generic_noop (s : st) dev :
-  same_set dev (target s dev) -> plan_generic B s dev = Ok [].
+  same_set dev (target s dev) -> plan_generic_core B s dev = Ok [].
 Proof.
   intros H. rewrite plan_generic_unfold. cbv zeta.
   set (diff := int_slice_diff dev (get_enabled_uplink_channel_indices s)).
@@ -555,7 +555,7 @@ Qed.
 (* every payload fits the LinkADRReq wire format when the plan has at most 128 channels *)
 Theorem generic_encodable (s : st) dev :
   zlen (up s) <= 128 -> (forall c, In c dev -> 0 <= c < 128) ->
-  exists pls, plan_generic 16 s dev = Ok pls /\ forallb encodable pls = true.
+  exists pls, plan_generic_core 16 s dev = Ok pls /\ forallb encodable pls = true.
 Proof.
   intros Hn Hd. eexists. split; [apply plan_generic_blocks; [lia|]; intros c Hc; apply Hd in Hc; lia|].
   apply forallb_forall. intros p Hp. apply in_map_iff in Hp as [k [<- Hk]].
